@@ -299,13 +299,13 @@ def find_edges_table(F, rep, rule="C03.3"):
     except Unsupported as e:
         rep.violated(rule, "find_edges", str(e), witness={"kind": "anchor-missing"})
         return
-    for d in (LEFT, RIGHT):
+    for d, stranded in ((LEFT, False), (RIGHT, False), (LEFT, True), (RIGHT, True)):
         def mk(script, d=d):
             return EdgesOracles(script, d)
 
-        def run(h, d=d):
+        def run(h, d=d, stranded=stranded):
             it = Interp(F, False, h)
-            g = graph_value(F, False)
+            g = graph_value(F, stranded)
             r = it.call_body(body, [Ref(Cell(g, "graph")), Int(64, False, bits=[TOP] * 64, tags=frozenset({"node"})), dir_v(d)])
             if not isinstance(r, VecV):
                 raise Unsupported("edge list is %r" % (r,))
@@ -320,7 +320,7 @@ def find_edges_table(F, rep, rule="C03.3"):
         try:
             leaves = explore(mk, run, max_runs=20000)
         except Unsupported as e:
-            rep.inconclusive(rule, "find_edges/dir=%s" % dir_name(d), "find_edges: %s" % e)
+            rep.inconclusive(rule, "find_edges/dir=%s%s" % (dir_name(d), "/stranded" if stranded else ""), "find_edges: %s" % e)
             continue
         problems = []
         for a, out, h in leaves:
@@ -339,7 +339,8 @@ def find_edges_table(F, rep, rule="C03.3"):
                 rc_which, rc_side = ("left_order", LEFT) if d == LEFT else ("right_order", RIGHT)
                 if a.get("hit:%sk:%s" % (pid, fwd_which)):
                     want.append(("%sk:%s" % (pid, fwd_which), fwd_side, False))
-                elif a.get("hit:%src:%s" % (pid, rc_which)):
+                elif a.get("hit:%src:%s" % (pid, rc_which)) and not stranded:
+                    # (a stranded graph never identifies a k-mer with its reverse complement: no edge through the rc probe)
                     want.append(("%src:%s" % (pid, rc_which), rc_side, True))
             if list(out) != want:
                 problems.append(("edges reported: %s; the extensions present resolve to %s (an extension whose k-mer is no node end yields no edge)" % (list(out), want), a, False))
@@ -358,10 +359,11 @@ def find_edges_table(F, rep, rule="C03.3"):
             asked = sorted(b for (sd, b) in h.obs.get("has_ext", []))
             if asked != [0, 1, 2, 3]:
                 problems.append(("extension bases tested are %s, not 0..3" % asked, a, False))
-        key = "find_edges/dir=%s" % dir_name(d)
+        key = "find_edges/dir=%s%s" % (dir_name(d), "/stranded" if stranded else "")
         hard = [p for p in problems if not p[2]]
         if hard:
-            rep.violated(rule, key, "find_edges(%s): %s  [row %s]" % (dir_name(d), hard[0][0], {k: v for k, v in hard[0][1].items() if v}), site=F.site(body, body["line"]),
+            rep.violated(rule, key, "find_edges(%s)%s: %s  [row %s]" % (dir_name(d), " on a stranded graph" if stranded else "", hard[0][0],
+                                                                        {k: v for k, v in hard[0][1].items() if v}), site=F.site(body, body["line"]),
                          witness={"kind": "row", "row": {k: str(v) for k, v in hard[0][1].items()}, "count": len(hard)})
         elif problems:
             rep.inconclusive(rule, key, "find_edges: %s" % problems[0][0])
@@ -1193,6 +1195,22 @@ def finish_tables(F, rep, rule="C19.1"):
                     return Opaque("DnaStringSlice", {"seq"}, {"node": i})
                 if "PackedDnaStringSet" in path and name == "len":
                     return Int(64, False, val=self.n)
+                if fn.get("trait") == "Kmer" and name == "k":
+                    return Int(64, False, val=self.KK)
+                if (fn.get("trait") in ("Mer", "Vmer") or path.startswith("dna_string::DnaString::")) and name in ("len", "get_kmer") and args \
+                        and isinstance(recv(it, args[0]), Opaque) \
+                        and "packed" in tags_of(recv(it, args[0])):
+                    # the backing string of the packed store read directly: a k-mer at an absolute position is the first / last k-mer of the
+                    # node that starts / ends there — or of no node at all
+                    if name == "len":
+                        return Int(64, False, val=self.node_start(self.n - 1) + self.node_len(self.n - 1) + 5 if self.n else 3)
+                    pos = args[1].val if isinstance(args[1], Int) and args[1].is_conc() else None
+                    for i in range(self.n):
+                        if pos == self.node_start(i):
+                            return Opaque("K", {"kmer"}, {"end": "first_kmer", "node": i})
+                        if pos == self.node_start(i) + self.node_len(i) - self.KK:
+                            return Opaque("K", {"kmer"}, {"end": "last_kmer", "node": i})
+                    return Opaque("K", {"kmer"}, {"end": "k-mer at position %s of the packed store (no node's terminal k-mer)" % pos, "node": None})
                 if fn.get("trait") == "Vmer" and name in ("first_kmer", "last_kmer", "term_kmer", "get_kmer"):
                     s_ = recv(it, args[0])
                     which = name
@@ -1281,6 +1299,14 @@ def finish_tables(F, rep, rule="C19.1"):
                     return Int(64, False, val=self.n)
                 return None
 
+            KK = 4
+
+            def node_start(self, i):
+                return 2 + 23 * i
+
+            def node_len(self, i):
+                return 9 + (i % 7)
+
             def all_a(self, end):
                 """which node's `end` k-mer is the all-A k-mer (None: no node's)"""
                 if ("order:" + end) in self.memo:
@@ -1313,7 +1339,17 @@ def finish_tables(F, rep, rule="C19.1"):
                 it = Interp(F, False, h)
                 if n > 1000:
                     it.max_steps = 400 * n + 1000000
-                me = struct_of(F, "graph::BaseGraph", {"sequences": Opaque("PackedDnaStringSet", {"sequences"}), "exts": Opaque("Vec", {"exts-vec"}),
+                # the packed store: node i is the view (start[i], length[i]) of one backing string.  The layout scripted here is NOT tight
+                # (gaps before, between and after the nodes): the three fields are public, and only (start, length) say where a node is
+                PDS = "dna_string::PackedDnaStringSet"
+                pf = sorted(f["name"] for f in F.adts.get(PDS, {"variants": [{"fields": []}]})["variants"][0]["fields"])
+                if pf == ["length", "sequence", "start"]:
+                    seqs = struct_of(F, PDS, {"sequence": Opaque("DnaString", {"packed"}),
+                                              "start": VecV([Int(64, False, val=h.node_start(i)) for i in range(n)]),
+                                              "length": VecV([Int(32, False, val=h.node_len(i)) for i in range(n)])})
+                else:
+                    seqs = Opaque("PackedDnaStringSet", {"sequences"})
+                me = struct_of(F, "graph::BaseGraph", {"sequences": seqs, "exts": Opaque("Vec", {"exts-vec"}),
                                                         "data": Opaque("Vec", {"data-vec"}), "stranded": mkbool(False)})
                 return it.call_body(body, [me])
             for a_, r, h in explore(lambda script, n=n: H(script, n), run):
